@@ -3,6 +3,7 @@ package main
 import (
 	"fmt"
 	"math/rand"
+	"runtime"
 	"strings"
 
 	"github.com/semihalev/twig"
@@ -117,6 +118,7 @@ func runC14(e *Env) error {
 		}
 	}
 	// (a3) token counts around the powers of two (the token buffer's growth steps): dashes must still trim
+	tokenBufferGrowthSweep(e, "C14: the number of tokens does not change how a template is read (implementation-only oracle; token buffer growth)")
 	for _, total := range tokenCountTargets(e.Thorough()) {
 		src := sourceWithTokens(e.Rng, total)
 		if ok, err := compareScan(e, src, true, "n:"); err != nil {
@@ -525,4 +527,96 @@ func commentOnlyOracle(e *Env) {
 			}
 		}
 	}
+}
+
+// tokenBufferGrowthSweep (implementation-only; after the detection of seeded change C13-E turned out to depend on
+// which pooled tokenizer the run happened to get): the pooled tokenizers are dropped (two garbage collections empty
+// sync.Pool), then templates with 1, 2, 3, … tokens are rendered one after the other on this goroutine, so the token
+// count passes through every capacity the reused token buffer grows through (32, 64, 128, …) exactly when it is
+// reached. Plain and dashed spellings; the expected output is computed here.
+func tokenBufferGrowthSweep(e *Env, broken string) {
+	r := e.Rep
+	// one P: sync.Pool keeps the object a goroutine puts back in a per-P slot, so with several Ps a migrating
+	// goroutine keeps getting fresh tokenizers and the buffer under test never grows through its capacities
+	defer runtime.GOMAXPROCS(runtime.GOMAXPROCS(1))
+	max := e.N(700, 2600)
+	for pass := 0; pass < 2*max && !r.Full(); pass++ {
+		// two passes, each after the pooled tokenizers were dropped: the dashed spelling first, then the plain one
+		n := pass%max + 1
+		if n == 1 {
+			runtime.GC()
+			runtime.GC()
+		}
+		for _, dashed := range []bool{pass < max} {
+			tags, texts := n/3, n%3
+			var src, want strings.Builder
+			for i := 0; i < tags || i < texts; i++ {
+				if i < texts {
+					if dashed {
+						src.WriteString("x \t \n ")
+					} else {
+						src.WriteString("x")
+					}
+					want.WriteString("x")
+				}
+				if i < tags {
+					if dashed {
+						src.WriteString("{{- a -}}")
+					} else {
+						src.WriteString("{{ a }}")
+					}
+					want.WriteString("A")
+				}
+			}
+			if dashed && texts > tags {
+				continue // a last text without a tag behind it keeps its trailing blanks: covered by the plain spelling
+			}
+			res := renderSrc(src.String(), map[string]any{"a": "A"})
+			if res.Class != "" || res.Out != want.String() {
+				r.Violate(Violation{Key: "token-count-boundary", What: fmt.Sprintf("a template of %d tokens (%d print tags, %d texts, dashed=%v) rendered right after templates of 1…%d tokens gives %q (%s %v), expected %q", n, tags, texts, dashed, n-1, truncate(res.Out, 80), res.Class, res.Err, truncate(want.String(), 80)),
+					Broken: broken, Replay: map[string]any{"kind": "src", "src": src.String(), "want": want.String(), "got": res.Out, "class": res.Class, "tokens": n}})
+				return
+			}
+		}
+	}
+	// …and a ladder that does not depend on what the pool holds: the tokenizer asks for len(source)/10 slots, so a
+	// source of exactly n tokens and 10·n bytes gets a buffer of exactly n slots whenever the pooled one is smaller —
+	// each rung is more than twice the one before, which is more than any buffer the earlier rungs left behind
+	for n := 301; n <= e.N(24421, 73264) && !r.Full(); n = 3*n + 1 {
+		for _, texts := range []int{1, 2} {
+			tags := (n - texts) / 3
+			if 3*tags+texts != n {
+				continue
+			}
+			var src, want strings.Builder
+			padTo := 10*n + 4 - 9*tags
+			for i := 0; i < texts; i++ {
+				k := padTo / texts
+				if i == 0 {
+					k = padTo - k*(texts-1)
+				}
+				body := "x" + strings.Repeat("y", k-7)
+				src.WriteString(body + " \t \n  ")
+				want.WriteString(body)
+				src.WriteString("{{- a -}}")
+				want.WriteString("A")
+			}
+			for i := texts; i < tags; i++ {
+				src.WriteString("{{- a -}}")
+				want.WriteString("A")
+			}
+			if len(src.String())/10 != n {
+				r.Violate(Violation{Key: "harness-weak", What: fmt.Sprintf("ladder source for %d tokens has %d bytes", n, len(src.String())), Broken: broken, Replay: map[string]any{"kind": "src", "tokens": n}})
+				return
+			}
+			res := renderSrc(src.String(), map[string]any{"a": "A"})
+			r.Seen(fmt.Sprintf("token-ladder:%d:%d", n, texts), true)
+			if res.Class != "" || res.Out != want.String() {
+				r.Violate(Violation{Key: "token-count-boundary", What: fmt.Sprintf("a template of exactly %d tokens and %d bytes (the tokenizer sizes its buffer to %d slots) renders %d bytes (%s %v), expected %d bytes; first difference at %d", n, len(src.String()), n, len(res.Out), res.Class, res.Err, len(want.String()), firstDiff(res.Out, want.String())),
+					Broken: broken, Replay: map[string]any{"kind": "src", "src": src.String(), "want": want.String(), "got": res.Out, "class": res.Class, "tokens": n}})
+				return
+			}
+		}
+	}
+	r.Hit("token-buffer-growth-sweep")
 }
